@@ -599,6 +599,17 @@ def check(run, repo, tier):
 KEEP = ("_removePageRecords",)
 
 
+def _by_position(v, call, roles):
+  """{role: argument} for the first len(roles) parameters of the callee, however they are
+  passed."""
+  out = {}
+  for i, r in enumerate(roles):
+    a = v.arg(call, i)
+    if a is not None:
+      out[r] = a
+  return out
+
+
 def r4_caller(run, w, ip):
   R4 = run.rule("C36-R4", "_removePageRecords fixes indentations of all pages in page order "
                 "before removing, with (id, indentation) in the producer's order", floor=5)
@@ -660,7 +671,7 @@ def r4_caller(run, w, ip):
   rem = [(m, c2) for (m, c2, nm) in fn.calls() if endswith(nm, "self.doBulkRemoveRecord")]
   ok = False
   if len(upd) == 1:
-    ub = H.bind_args(upd[0][1], ("table_id", "row_ids", "columns")) or {}
+    ub = _by_position(v, upd[0][1], ("table_id", "row_ids", "columns"))
 
     def comp_index(e):
       """k when e is [f[k] for f in <fixes>] (or the equivalent loop)"""
@@ -687,7 +698,7 @@ def r4_caller(run, w, ip):
          "order fix_indents appends them in", ok, fi=fn.fi)
   ok = len(upd) == 1 and len(rem) == 1
   if ok:
-    rb = H.bind_args(rem[0][1], ("table_id", "row_ids")) or {}
+    rb = _by_position(v, rem[0][1], ("table_id", "row_ids"))
     ok = rem[0][0].id in cfg.reach_after({upd[0][0].id}) and \
         upd[0][0].id not in cfg.reach_after({rem[0][0].id}) and \
         cfg.dominated_by(cfg.exit.id, {rem[0][0].id}) and \
